@@ -916,4 +916,277 @@ theorem forward_spray_exact (s : Node) (e : Env) (ha : s.algo = .spray) (hst : s
         have : r.2.sent.length = m.sent.length + r.1.length := by rw [p1]; simp
         omega
 
+theorem forward_log (P : Params) (s : Node) (e : Env) :
+    (forward P s e).log = s.log ++ forwardSends s e := by
+  cases hst : s.stored with
+  | false => rw [forward_not_stored _ _ _ hst]; simp [forwardSends, hst]
+  | true => rw [forward_stored _ _ _ hst, forwardSends_stored _ _ hst]
+
+/-- With complete schedules the `sent` list of an originated bundle is exactly as long as the list of
+successful relays (and never contains the destination). -/
+def QInv (s : Node) : Prop :=
+  ∀ m, s.md = some m → s.dest ∉ m.sent ∧ m.sent.length = (relayed s.dest s.log).length
+
+theorem forward_qinv (s : Node) (e : Env) (ha : s.algo = .spray)
+    (hc : forwardComplete fixed s e = true) (h : QInv s) : QInv (forward fixed s e) := by
+  cases hst : s.stored with
+  | false => rw [forward_not_stored _ _ _ hst]; exact h
+  | true =>
+    intro m' hm'
+    have hcfg := forward_config fixed s e
+    rw [hcfg.2.2.1, forward_log, relayed_append]
+    cases hm : s.md with
+    | none =>
+      obtain ⟨order, hmd, _, _⟩ := forward_md s e hst
+      have hch : (choose s e).2 = none := by
+        unfold choose; split
+        · exact hm
+        · rw [hm]; rfl
+      rw [hmd, hch, giveBackAll_none] at hm'; cases hm'
+    | some m =>
+      obtain ⟨hd, hlen⟩ := h m hm
+      obtain ⟨m'', e1, e2, _, e4⟩ := forward_spray_exact s e ha hst m hm hd hc
+      rw [e1] at hm'; cases hm'
+      exact ⟨e2, by rw [e4, hlen]; simp⟩
+
+theorem run_preserves_complete (Q : Node → Prop)
+    (hprep : ∀ s ev, ev.isEntry = false → Q s → Q (prepare s ev).1)
+    (hfwd : ∀ s e, forwardComplete fixed s e = true → Q s → Q (forward fixed s e))
+    (s : Node) (evs : List Event) (hne : ∀ ev ∈ evs, ev.isEntry = false)
+    (hc : runComplete fixed s evs = true) (h : Q s) : Q (run fixed s evs) := by
+  induction evs generalizing s with
+  | nil => exact h
+  | cons ev evs ih =>
+    rw [run_cons]
+    simp only [runComplete, Bool.and_eq_true] at hc
+    refine ih _ (fun x hx => hne x (List.mem_cons_of_mem _ hx)) hc.2 ?_
+    have := hprep s ev (hne ev (List.mem_cons_self ..)) h
+    have hsc := hc.1
+    unfold stepComplete at hsc
+    unfold step
+    split
+    · next s' e heq => rw [heq] at this hsc; exact hfwd s' e hsc this
+    · next s' heq => rw [heq] at this; exact this
+
+theorem runComplete_append (P : Params) (s : Node) (e₁ e₂ : List Event) :
+    runComplete P s (e₁ ++ e₂) = (runComplete P s e₁ && runComplete P (run P s e₁) e₂) := by
+  induction e₁ generalizing s with
+  | nil => simp [runComplete, run]
+  | cons ev evs ih => simp [runComplete, run_cons, ih, Bool.and_assoc]
+
+theorem prepare_qinv (s : Node) (ev : Event) (hne : ev.isEntry = false)
+    (h : s.algo = .spray ∧ QInv s) : (prepare s ev).1.algo = .spray ∧ QInv (prepare s ev).1 := by
+  obtain ⟨ha, h⟩ := h
+  cases ev with
+  | submit e => simp [Event.isEntry] at hne
+  | receive b p e => simp [Event.isEntry] at hne
+  | peerUp p e => exact ⟨ha, h⟩
+  | peerDown p => exact ⟨ha, h⟩
+  | tick e => exact ⟨ha, h⟩
+  | restart => exact ⟨ha, fun m hm => by simp [prepare] at hm⟩
+
+theorem spray_run_qinv (s : Node) (ha : s.algo = .spray) (hf : Fresh s) (pre rest : List Event)
+    (e : Env) (hpre : ∀ ev ∈ pre, ev.isEntry = false) (hrest : ∀ ev ∈ rest, ev.isEntry = false)
+    (hc : runComplete fixed s (pre ++ .submit e :: rest) = true) :
+    QInv (run fixed s (pre ++ .submit e :: rest)) := by
+  rw [runComplete_append] at hc
+  simp only [Bool.and_eq_true, runComplete] at hc
+  obtain ⟨_, hc1, hc2⟩ := hc
+  rw [run_append, run_cons]
+  have hcfg := run_config fixed s pre
+  have hfr := run_fresh fixed s pre hpre hf
+  have ha0 : (run fixed s pre).algo = .spray := hcfg.1.trans ha
+  have ha1 : (step fixed (run fixed s pre) (.submit e)).algo = .spray :=
+    (step_config fixed _ _).1.trans ha0
+  have h1 : QInv (step fixed (run fixed s pre) (.submit e)) := by
+    simp only [stepComplete, prepare] at hc1
+    simp only [step, prepare]
+    refine forward_qinv _ e ha0 hc1 ?_
+    intro m hm
+    simp only [notify, ha0, Option.some.injEq] at hm
+    subst hm
+    simp [hfr.2, relayed]
+  exact (run_preserves_complete (fun s => s.algo = .spray ∧ QInv s) prepare_qinv
+    (fun s e hc h => ⟨(forward_config fixed s e).1.trans h.1, forward_qinv s e h.1 hc h.2⟩)
+    _ rest hrest hc2 ⟨ha1, h1⟩).2
+
+/-! ### A node without spare copies waits for the destination (both algorithms, every schedule) -/
+
+theorem mem_mkReports_peer {a : Algo} {sends : List Send} {k : Peer × Nat} (h : k ∈ mkReports a sends) :
+    ∃ x ∈ sends, x.ok = false ∧ x.peer = k.1 := by
+  simp only [mkReports, List.mem_filterMap, List.mem_filter] at h
+  obtain ⟨x, ⟨hx, hok⟩, hk⟩ := h
+  refine ⟨x, hx, by simpa using hok, ?_⟩
+  cases a with
+  | spray => simp only [Option.some.injEq] at hk; rw [← hk]
+  | binary =>
+    simp only [Option.map_eq_some_iff] at hk
+    obtain ⟨_, _, rfl⟩ := hk; rfl
+
+theorem forward_waits (s : Node) (e : Env)
+    (h : ∀ m, s.md = some m → m.remaining < 2 ∧ s.dest ∉ m.sent) :
+    (forward fixed s e).md = s.md ∧ ∀ x ∈ forwardSends s e, x.peer = s.dest := by
+  cases hst : s.stored with
+  | false => rw [forward_not_stored _ _ _ hst]; simp [forwardSends, hst]
+  | true =>
+    obtain ⟨order, hmd, hsub, _⟩ := forward_md s e hst
+    rw [forwardSends_stored _ _ hst]
+    have hch : choose s e = ([⟨s.dest, none⟩], s.md) ∨ choose s e = ([], s.md) := by
+      unfold choose
+      split
+      · exact Or.inl rfl
+      · right
+        cases hm : s.md with
+        | none => rfl
+        | some m => simp [senderForBundle, (h m hm).1]
+    have hsends : ∀ x ∈ mkSends s e (choose s e).1, x.peer = s.dest := by
+      intro x hx
+      rcases hch with hch | hch <;> rw [hch] at hx <;> simp [mkSends] at hx
+      rw [hx]
+    refine ⟨?_, hsends⟩
+    have h2 : (choose s e).2 = s.md := by rcases hch with hch | hch <;> rw [hch]
+    rw [hmd, h2]
+    cases hm : s.md with
+    | none => exact giveBackAll_none _ _ _
+    | some m =>
+      refine giveBackAll_noop _ m order (fun k hk => ?_)
+      obtain ⟨x, hx, _, hxp⟩ := mem_mkReports_peer (hsub k hk)
+      rw [← hxp, hsends x hx]
+      exact (h m hm).2
+
+/-- Every history without a new entry: a node holding fewer than two copies (or none at all after a
+restart) only ever transmits to the destination, and its count does not change. -/
+theorem waits_run (s : Node) (evs : List Event) (hne : ∀ ev ∈ evs, ev.isEntry = false)
+    (h : ∀ m, s.md = some m → m.remaining < 2 ∧ s.dest ∉ m.sent) :
+    (∀ x ∈ (run fixed s evs).log, x ∈ s.log ∨ x.peer = s.dest) ∧
+    (∀ m, (run fixed s evs).md = some m → m.remaining < 2) := by
+  have := run_preserves
+    (fun t => t.dest = s.dest ∧ (∀ m, t.md = some m → m.remaining < 2 ∧ s.dest ∉ m.sent) ∧
+      ∀ x ∈ t.log, x ∈ s.log ∨ x.peer = s.dest)
+    (fun t ev hev ⟨q1, q2, q3⟩ => by
+      cases ev with
+      | submit e => simp [Event.isEntry] at hev
+      | receive b p e => simp [Event.isEntry] at hev
+      | peerUp p e => exact ⟨q1, q2, q3⟩
+      | peerDown p => exact ⟨q1, q2, q3⟩
+      | tick e => exact ⟨q1, q2, q3⟩
+      | restart => exact ⟨q1, fun m hm => by simp [prepare] at hm, q3⟩)
+    (fun t e ⟨q1, q2, q3⟩ => by
+      have hw := forward_waits t e (fun m hm => by rw [q1]; exact q2 m hm)
+      refine ⟨(forward_config fixed t e).2.2.1.trans q1, fun m hm => q2 m (by rw [← hw.1]; exact hm), ?_⟩
+      intro x hx
+      rw [forward_log] at hx
+      rcases List.mem_append.mp hx with hx | hx
+      · exact q3 x hx
+      · exact Or.inr (by rw [hw.2 x hx, q1]))
+    s evs hne ⟨rfl, h, fun x hx => Or.inl hx⟩
+  exact ⟨this.2.2, fun m hm => (this.2.1 m hm).1⟩
+
+/-! ### Binary spray -/
+
+theorem perm_singleton_eq {α} {l : List α} {a : α} (h : l.Perm [a]) : l = [a] :=
+  List.perm_singleton.mp h
+
+/-- Binary spray, one forwarding step whose failure report (if any) finishes. -/
+theorem forward_binary_exact (s : Node) (e : Env) (ha : s.algo = .binary) (hst : s.stored = true)
+    (m : Meta) (hm : s.md = some m) (hd : s.dest ∉ m.sent)
+    (hc : forwardComplete fixed s e = true) :
+    ∃ m', (forward fixed s e).md = some m' ∧ s.dest ∉ m'.sent ∧
+      (∀ x ∈ forwardSends s e, x.peer ≠ s.dest →
+        2 ≤ m.remaining ∧ BinarySplit m.remaining x m'.remaining ∧ (x.ok = false → m' = m) ∧
+        forwardSends s e = [x]) ∧
+      ((∀ x ∈ forwardSends s e, x.peer = s.dest) → m' = m) := by
+  obtain ⟨order, hmd, hsub, hperm⟩ := forward_md s e hst
+  rw [forwardSends_stored s e hst]
+  -- the cases in which nothing is relayed
+  have hnone : ∀ cs, choose s e = (cs, some m) → (∀ c ∈ cs, c.peer = s.dest) →
+      ∃ m', (forward fixed s e).md = some m' ∧ s.dest ∉ m'.sent ∧
+      (∀ x ∈ mkSends s e (choose s e).1, x.peer ≠ s.dest →
+        2 ≤ m.remaining ∧ BinarySplit m.remaining x m'.remaining ∧ (x.ok = false → m' = m) ∧
+        mkSends s e (choose s e).1 = [x]) ∧
+      ((∀ x ∈ mkSends s e (choose s e).1, x.peer = s.dest) → m' = m) := by
+    intro cs hch hcs
+    have hall : ∀ x ∈ mkSends s e (choose s e).1, x.peer = s.dest := by
+      intro x hx
+      have : x.peer ∈ (mkSends s e (choose s e).1).map (·.peer) := List.mem_map_of_mem hx
+      rw [mkSends_peers, hch] at this
+      obtain ⟨c, hc', hcp⟩ := List.mem_map.mp this
+      rw [← hcp]; exact hcs c hc'
+    refine ⟨m, ?_, hd, fun x hx hne => absurd (hall x hx) hne, fun _ => rfl⟩
+    rw [hmd, hch]
+    refine giveBackAll_noop _ m order (fun k hk => ?_)
+    obtain ⟨x, hx, _, hxp⟩ := mem_mkReports_peer (hsub k hk)
+    rw [← hxp, hall x hx]; exact hd
+  by_cases hdir : s.conn.contains s.dest = true
+  · exact hnone [⟨s.dest, none⟩] (by unfold choose; rw [if_pos hdir, hm]) (by simp)
+  · have hch : choose s e = senderForBundle .binary (e.order.filter (fun p => s.conn.contains p)) s.md := by
+      unfold choose; rw [if_neg hdir, ha]
+    by_cases hlt : m.remaining < 2
+    · exact hnone [] (by rw [hch, hm]; simp [senderForBundle, hlt]) (by simp)
+    · cases hbp : binaryPick (e.order.filter (fun p => s.conn.contains p)) m with
+      | none => exact hnone [] (by rw [hch, hm]; simp only [senderForBundle, hlt, ↓reduceIte, hbp]) (by simp)
+      | some r =>
+        obtain ⟨p, send, m1⟩ := r
+        -- what binaryPick returns
+        have hspec : p ∈ e.order.filter (fun p => s.conn.contains p) ∧ p ∉ m.sent ∧
+            send = m.remaining / 2 ∧ m1 = ⟨m.sent ++ [p], m.remaining - m.remaining / 2⟩ := by
+          unfold binaryPick at hbp
+          split at hbp
+          · cases hbp
+          · next q hq =>
+            simp only [Option.some.injEq, Prod.mk.injEq] at hbp
+            obtain ⟨rfl, rfl, rfl⟩ := hbp
+            have := List.find?_some hq
+            exact ⟨List.mem_of_find?_eq_some hq, by simpa using this, rfl, rfl⟩
+        obtain ⟨hp1, hp2, rfl, rfl⟩ := hspec
+        have hpd : p ≠ s.dest := not_direct_of_mem_cands hdir hp1
+        have hch' : choose s e = ([⟨p, some (m.remaining / 2)⟩],
+            some ⟨m.sent ++ [p], m.remaining - m.remaining / 2⟩) := by
+          rw [hch, hm]; simp only [senderForBundle, hlt, ↓reduceIte, hbp]
+        have hsends : mkSends s e (choose s e).1 =
+            [⟨p, !(e.fails.contains p), some (m.remaining / 2)⟩] := by rw [hch']; rfl
+        have herase : (m.sent ++ [p]).erase p = m.sent := by
+          rw [List.erase_append_right _ hp2]; simp
+        cases hok : e.fails.contains p with
+        | false =>
+          -- success: nothing is reported
+          have hrep : mkReports s.algo (mkSends s e (choose s e).1) = [] := by
+            rw [hsends, hok]; simp [mkReports]
+          have hord : order = [] := by
+            cases order with
+            | nil => rfl
+            | cons k ks => have := hsub k (List.mem_cons_self ..); rw [hrep] at this; cases this
+          refine ⟨⟨m.sent ++ [p], m.remaining - m.remaining / 2⟩, ?_, ?_, ?_, ?_⟩
+          · rw [hmd, hch', hord]; rfl
+          · intro hmem; rcases List.mem_append.mp hmem with h | h
+            · exact hd h
+            · simp only [List.mem_singleton] at h; exact hpd h.symm
+          · intro x hx _
+            rw [hsends, hok] at hx ⊢
+            simp only [List.mem_singleton] at hx; subst hx
+            refine ⟨by omega, ⟨rfl, ?_⟩, fun h => by simp at h, rfl⟩
+            simp only [Bool.not_false, if_true]; omega
+          · intro hall
+            have := hall _ (by rw [hsends]; exact List.mem_cons_self ..)
+            exact absurd this hpd
+        | true =>
+          -- failure: the one report gives the announced copies back
+          have hrep : mkReports s.algo (mkSends s e (choose s e).1) = [(p, m.remaining / 2)] := by
+            rw [hsends, hok, ha]; simp [mkReports]
+          have hord : order = [(p, m.remaining / 2)] := by
+            have := hperm hc (by rw [hch']; rfl)
+            rw [hrep] at this; exact perm_singleton_eq this
+          have hfin : (forward fixed s e).md = some m := by
+            rw [hmd, hch', hord, ha]
+            simp only [giveBackAll, List.foldl_cons, List.foldl_nil, Option.map_some]
+            rw [giveBack_binary_mem (by simp)]
+            simp only [herase]
+            congr 2
+            omega
+          refine ⟨m, hfin, hd, ?_, fun _ => rfl⟩
+          intro x hx _
+          rw [hsends, hok] at hx ⊢
+          simp only [List.mem_singleton] at hx; subst hx
+          exact ⟨by omega, ⟨rfl, by simp⟩, fun _ => rfl, rfl⟩
+
 end Dtn7.Spray.Lemmas
